@@ -293,6 +293,8 @@ fn nonsilent(f: &[Frame]) -> bool {
 /// one piece of a streaming run: optional seek, then `steps` decoder iterations, then `render` output frames
 #[derive(Clone, Copy, Debug)]
 struct Seg {
+	/// seek_by(seconds) issued before the piece
+	seek_by: Option<f64>,
 	seek: Option<usize>,
 	steps: usize,
 	render: usize,
@@ -370,6 +372,9 @@ fn stream_play_lp(bytes: &Arc<[u8]>, rate: u32, start: usize, lp: Option<(usize,
 		if let Some(p) = seg.seek {
 			handle.seek_to(p as f64 / rate as f64);
 		}
+		if let Some(d) = seg.seek_by {
+			handle.seek_by(d);
+		}
 		paced_step(dec, seg.steps, &mut obs.hung);
 		let mut out = vec![Frame::new(POISON, POISON); seg.render];
 		sound.on_start_processing();
@@ -434,7 +439,7 @@ fn stream_scenario(s: &StreamSubject, start: usize, seeks: &[usize], k: usize, c
 		if i == seeks.len() {
 			let kk = k.min(remaining);
 			let ends = kk == remaining;
-			segs.push(Seg { seek, steps: kk + ends as usize, render: kk + 2 * ends as usize });
+			segs.push(Seg { seek_by: None, seek, steps: kk + ends as usize, render: kk + 2 * ends as usize });
 			expect.push((pos, kk));
 		} else {
 			// keep the decoder alive: what a seek does after the sound has ended is life-cycle, not decoding
@@ -442,7 +447,7 @@ fn stream_scenario(s: &StreamSubject, start: usize, seeks: &[usize], k: usize, c
 			if kk == 0 {
 				return false;
 			}
-			segs.push(Seg { seek, steps: kk, render: kk });
+			segs.push(Seg { seek_by: None, seek, steps: kk, render: kk });
 			expect.push((pos, kk));
 			pos += kk;
 		}
@@ -633,6 +638,83 @@ fn stream_case(tier: Tier, fmt: Fmt, ch: u16, rate: u32, ctx: &mut Ctx) {
 	}
 }
 
+/// seek_by is relative to what is HEARD when the command is consumed, however far ahead the decoder has buffered: the frames
+/// already buffered are played out, then the stream continues at (heard position + d)
+fn seek_by_case(fmt: Fmt, ch: u16, ctx: &mut Ctx) {
+	pacer::set_mode(pacer::Mode::Pacer);
+	let (n, rate) = (6000usize, 8000u32);
+	let spec = Spec { fmt, ch, n, rate, layout: Layout::Plain };
+	let (file, _, vals) = encode(&spec);
+	let bytes: Arc<[u8]> = file.into();
+	let reference = to_frames(&vals, ch as usize);
+	let locate = |a: Frame, b: Frame, near: usize| -> Option<usize> {
+		// the file frame at which the pair (a, b) occurs, nearest to `near`
+		(0..n - 1).filter(|&j| same_frame(reference[j], a) && same_frame(reference[j + 1], b)).min_by_key(|&j| (j as i64 - near as i64).abs())
+	};
+	let heard0 = 100usize;
+	for &ahead in &[0usize, 64, 1000, 3000] {
+		for &d_frames in &[400i64, -80, 1600, 8] {
+			ctx.evals += 1;
+			ctx.count("runs: seek_by scenarios", 1);
+			let d = d_frames as f64 / rate as f64;
+			let k = ahead + 400;
+			// (the position a handle / the decoder sees is published at the start of a callback: the last callback before the
+			// command renders a single frame, so that position is frame heard0 - 1)
+			let segs = [
+				Seg { seek_by: None, seek: None, steps: heard0 + ahead, render: heard0 - 1 },
+				Seg { seek_by: None, seek: None, steps: 0, render: 1 },
+				Seg { seek_by: Some(d), seek: None, steps: k, render: k },
+			];
+			let detail = format!("{}: {} frames heard while the decoder is {} frames ahead, then seek_by({} frames / rate), {} frames rendered", spec.desc(), heard0, ahead, d_frames, k);
+			let obs = match catch(|| stream_play(&bytes, rate, 0, &segs)) {
+				Ok(o) => o,
+				Err(p) => {
+					ctx.fail(format!("panic: {} :: seek_by on a stream", p), detail);
+					continue;
+				}
+			};
+			if obs.hung || obs.open_err.is_some() || obs.start_err.is_some() || !obs.errors.is_empty() {
+				ctx.fail("stream: seek_by on a valid file hangs / is refused / reports a decode error", format!("{:?} {:?} {:?} hung={}; {}", obs.open_err, obs.start_err, obs.errors, obs.hung, detail));
+				continue;
+			}
+			let out = &obs.out[2];
+			// walk the output: consecutive file frames until the jump
+			let mut prev: Option<usize> = Some(heard0 - 1);
+			let mut landing: Option<(usize, usize)> = None;
+			for j in 0..out.len().saturating_sub(1) {
+				let near = prev.map(|p| p + 1).unwrap_or(heard0);
+				let Some(r) = locate(out[j], out[j + 1], near) else { continue };
+				if let Some(p) = prev {
+					if r != p + 1 {
+						landing = Some((j, r));
+						break;
+					}
+				}
+				prev = Some(r);
+			}
+			let want = heard0 as i64 - 1 + d_frames;
+			match landing {
+				Some((j, r)) => {
+					if (r as i64 - want).abs() > 3 {
+						ctx.fail(
+							format!("stream: seek_by does not continue at the heard position + the requested amount :: decoder {} ahead", if ahead == 0 { "not" } else { "frames" }),
+							format!("after {} more frames the stream continues at file frame {}, expected {} (+-3); {}", j, r, want, detail),
+						);
+					} else {
+						ctx.nontrivial_extra += 1;
+					}
+				}
+				None => {
+					if d_frames != 0 {
+						ctx.fail("stream: seek_by has no visible effect", format!("no discontinuity in {} rendered frames; {}", out.len(), detail));
+					}
+				}
+			}
+			ctx.outcome(frames_hash(out));
+		}
+	}
+}
+
 /// "after any sequence of seeks" on a stream that loops: the frames heard after the seek are the file's frames from the
 /// (wrapped) target on, wrapping from the loop end to the loop start
 fn loop_seek_case(fmt: Fmt, ch: u16, ctx: &mut Ctx) {
@@ -656,7 +738,7 @@ fn loop_seek_case(fmt: Fmt, ch: u16, ctx: &mut Ctx) {
 				ctx.evals += 1;
 				ctx.count("runs: looping-stream seek scenarios", 1);
 				let k = 800usize;
-				let segs = [Seg { seek: None, steps: played, render: played }, Seg { seek: Some(target), steps: k, render: k }];
+				let segs = [Seg { seek_by: None, seek: None, steps: played, render: played }, Seg { seek_by: None, seek: Some(target), steps: k, render: k }];
 				let detail = format!("{}: loop region {}..{}, start position {}, {} frames played, then seek_to(frame {} / rate), {} frames rendered (exactly paced)", spec.desc(), a, b, start, played, target, k);
 				let obs = match catch(|| stream_play_lp(&bytes, rate, start, Some((a, b)), &segs)) {
 					Ok(o) => o,
@@ -744,7 +826,7 @@ fn long_stream_case(fmt: Fmt, ch: u16, ctx: &mut Ctx) {
 		let k = piece.min(left);
 		left -= k;
 		let ends = left == 0;
-		segs.push(Seg { seek: None, steps: k + ends as usize, render: k + 2 * ends as usize });
+		segs.push(Seg { seek_by: None, seek: None, steps: k + ends as usize, render: k + 2 * ends as usize });
 	}
 	ctx.evals += 1;
 	ctx.count("runs: long streaming scenarios", 1);
@@ -874,7 +956,7 @@ fn stream_fault(desc: &dyn Fn() -> String, feature: &str, bytes: &Arc<[u8]>, rat
 		return ctx.count("fault_streams_skipped_after_3_decoder_hangs_in_this_worker", 1);
 	}
 	let n = valid.map(|v| v.len()).unwrap_or(4).min(1400);
-	let segs = [Seg { seek: None, steps: n + 1, render: n + 2 }];
+	let segs = [Seg { seek_by: None, seek: None, steps: n + 1, render: n + 2 }];
 	ctx.evals += 1;
 	let obs = match catch(|| stream_play(bytes, rate, 0, &segs)) {
 		Ok(o) => o,
@@ -1020,6 +1102,8 @@ enum Case {
 	LongStream(Fmt, u16),
 	/// seeks on a looping stream (targets before, inside, at the end of and beyond the loop region)
 	LoopSeek(Fmt, u16),
+	/// seek_by while the decoder is a number of frames ahead of what is heard
+	SeekBy(Fmt, u16),
 }
 
 fn cases(tier: Tier) -> Vec<Case> {
@@ -1041,6 +1125,8 @@ fn cases(tier: Tier) -> Vec<Case> {
 	v.push(Case::LongStream(Fmt::F32, 1));
 	v.push(Case::LoopSeek(Fmt::S16, 2));
 	v.push(Case::LoopSeek(Fmt::U8, 1));
+	v.push(Case::SeekBy(Fmt::S16, 1));
+	v.push(Case::SeekBy(Fmt::F32, 2));
 	for (i, s) in bases(tier).into_iter().enumerate() {
 		let b = base(s);
 		v.extend((0..=b.bytes.len() / TRUNC_PART).map(|part| Case::Trunc(i, part)));
@@ -1067,6 +1153,7 @@ impl Check for C18 {
 			Case::Asset(a) => format!("shipped asset {}: streaming == static on a position lattice (start x <=2 seeks)", a),
 			Case::Trunc(i, part) => format!("every truncation length in {}.. (at most {}) of base file {} [{}]", part * TRUNC_PART, TRUNC_PART, i, bases(tier)[*i].desc()),
 			Case::Corrupt(i, off) => format!("byte {} of base file {} [{}] set to each of the 255 other values", off, i, bases(tier)[*i].desc()),
+			Case::SeekBy(f, ch) => format!("generated wav {:?} channels={} of 6000 frames at 8000 Hz: seek_by(d) for d in a lattice, issued after 100 frames were heard while the decoder is 0 / 64 / 1000 / 3000 frames ahead: after the buffered frames the stream continues at heard position + d", f, ch),
 			Case::LoopSeek(f, ch) => format!("generated wav {:?} channels={} of 3000 frames at 8000 Hz streamed with loop region 1500..2200: start x one seek over a lattice of targets (before / inside / at the end of / beyond the region), early (decoder has not reached the loop) and late", f, ch),
 			Case::LongStream(f, ch) => format!("generated wav {:?} channels={} of 40000 frames at 8000 Hz streamed from start to end in pieces of 1000 frames (crosses the 16384-frame decoder ring twice) == loaded", f, ch),
 		}
@@ -1080,6 +1167,7 @@ impl Check for C18 {
 			Case::Corrupt(i, off) => format!("corruption of byte {} of base file {} [{}]", off, i, bases(tier)[*i].desc()),
 			Case::LongStream(f, ch) => format!("long stream {:?} channels={}", f, ch),
 			Case::LoopSeek(f, ch) => format!("looping stream seeks {:?} channels={}", f, ch),
+			Case::SeekBy(f, ch) => format!("seek_by with read-ahead {:?} channels={}", f, ch),
 		}
 	}
 	fn run_case(&self, tier: Tier, idx: u64, ctx: &mut Ctx) {
@@ -1091,6 +1179,7 @@ impl Check for C18 {
 			Case::Corrupt(i, off) => corruption_case(&base(bases(tier)[*i]), *off, ctx),
 			Case::LongStream(f, ch) => long_stream_case(*f, *ch, ctx),
 			Case::LoopSeek(f, ch) => loop_seek_case(*f, *ch, ctx),
+			Case::SeekBy(f, ch) => seek_by_case(*f, *ch, ctx),
 		});
 		if let Err(p) = r {
 			ctx.fail(format!("panic: {} :: outside the guarded kira calls (harness)", p), self.describe(tier, idx));
